@@ -114,6 +114,9 @@ def run_job(job):
     sj, flavour, binp, profile, seed, steps, prop, keep = job
     import check_log, logparse
     tmpd = vlib.scratch()
+    if os.path.exists(os.path.join(tmpd, 'stop-%d' % os.getppid())):
+        # several runs of this check already ended in the watchdog inside a library call: the verdict stands, the rest would only wait
+        return {'shape': sj['name'], 'desc': sj['desc'], 'cfg': sj['cfg'], 'sj': sj, 'flavour': flavour, 'profile': profile, 'seed': seed, 'steps': steps, 'rc': 0, 'args': [], 'timeout': True}
     tag = '%s-%s-%s-%d-%d' % (sj['name'], flavour, profile, seed, os.getpid())
     logp = os.path.join(tmpd, tag + '.log')
     nolog = bool(PROFILES[profile].get('_nolog'))
@@ -268,18 +271,24 @@ def shape_engine(prop, tier, seed, keep=False):
         for sj, fl, ex_, binp, out in vlib.pmap(build_job, [(sj, 'clang-asan', '') for sj in brng[:3 if tier == 'quick' else 12]]):
             if binp is None: V.harness_errors.append('build failed: %s: %s' % (sj['name'], out[:300])); continue
             jobs.append((sj, fl, binp, 'copies', seed * 31 + 7, T['steps'], prop, keep))
-    results = []; ntacc = set(); cfgacc = set(); sjshare = {}
+    results = []; ntacc = set(); cfgacc = set(); sjshare = {}; hangs = 0
+    stopflag = os.path.join(vlib.scratch(), 'stop-%d' % os.getpid())
+    if os.path.exists(stopflag): os.unlink(stopflag)
     with cf.ProcessPoolExecutor(max_workers=vlib.JOBS) as ex:
         for r in ex.map(run_job, jobs, chunksize=1):
             # merged as they arrive: thousands of runs with tens of thousands of hashes each do not fit in memory as lists
             for h in r.get('nt', {}).get(prop, []): ntacc.add(h)
             for h in r.get('cfg_hashes', []): cfgacc.add(h)
+            if r.get('hang'):
+                hangs += 1
+                if hangs == 4: open(os.path.join(vlib.scratch(), 'stop-%d' % os.getpid()), 'w').close()
             r['nt'] = {}; r['cfg_hashes'] = []
             # every result carries its own unpickled copy of the shape: share one object per shape instead
             key_ = (r.get('shape'), json.dumps(r.get('cfg'), sort_keys=True))
             r['sj'] = sjshare.setdefault(key_, r.get('sj')); r['desc'] = r['sj']['desc'] if r.get('sj') else r.get('desc'); r['cfg'] = r['sj']['cfg'] if r.get('sj') else r.get('cfg')
             if 'summary' in r and len(results) > 64: r['summary']['samples'] = r['summary']['samples'][-1:]; r['summary'].pop('matrix', None)
             results.append(r)
+    if os.path.exists(stopflag): os.unlink(stopflag)
     extra = dict(build_s=round(tb, 1), join_output_differs_from_single_header=joindiff)
     if prop == 'C11':
         # the instance flavours the shape harness cannot instantiate (no / pointer / value context), copies and moves with the source destroyed
